@@ -132,7 +132,7 @@ func genExecOp(r *Rng, w *World, cfgs []GenCfg, pOpts float64) Op {
 		op.Opts[i].Shared = r.P(0.3)
 	}
 	if r.P(pOpts / 2) {
-		op.Opts = append(op.Opts, OptSpec{K: "fmt", Fmt: "stamp"})
+		op.Opts = append(op.Opts, OptSpec{K: "fmt", Fmt: "stamp", Key: Pick(r, []string{"", "", "legacy"})})
 	}
 	op.Rev = r.P(0.3)
 	return op
